@@ -6,5 +6,5 @@ CONSTANTS
   Mutant = "none"
 VIEW View
 INVARIANTS WindowOK TypedHolds
-PROPERTIES ErrUnchanged ReadsPure StoreExact SliceShares AliasIsReference GrowthLocal StringsAreValues MapAliasing
+PROPERTIES ErrUnchanged ReadsPure StoreExact SliceShares AliasIsReference GrowthLocal StringsAreValues MapAliasing BoundValuesStay
 CHECK_DEADLOCK FALSE
